@@ -51,7 +51,8 @@ DecryptAndHash(st, c) ==
 WInit(prologue, sPriv, sPub, ePriv, ePub, rs) ==
   [sym |-> MixHash(MixHash(InitSym, prologue), rs),       \* initiator pre-mixes rs (noise.rs:231-234)
    sPriv |-> sPriv, sPub |-> sPub, ePriv |-> ePriv, ePub |-> ePub, rs |-> rs,
-   msg |-> <<>>, ok |-> TRUE]
+   msg |-> <<>>, ok |-> TRUE,
+   forge |-> "none"]      \* an attacker's writer may leave "ss" out or mix the all-zero secret instead (needs no private key)
 
 WTokE(hs)  == [hs EXCEPT !.msg = Append(hs.msg, hs.ePub), !.sym = MixHash(hs.sym, hs.ePub)]
 WTokES(hs) == LET dh == Dh(hs.ePriv, hs.rs)
@@ -60,7 +61,8 @@ WTokES(hs) == LET dh == Dh(hs.ePriv, hs.rs)
 WTokS(hs)  == LET r == EncryptAndHash(hs.sym, hs.sPub)
               IN [hs EXCEPT !.msg = Append(hs.msg, r.out), !.sym = r.st]
 WTokSS(hs) == LET dh == Dh(hs.sPriv, hs.rs)
-              IN IF Deviation = "SkipSS" THEN hs
+              IN IF Deviation = "SkipSS" \/ hs.forge = "skip_ss" THEN hs
+                 ELSE IF hs.forge = "zero_ss" THEN [hs EXCEPT !.sym = MixKey(hs.sym, ZeroDH)]
                  ELSE IF IsZeroDH(dh) /\ Deviation # "IgnoreDhZero" THEN [hs EXCEPT !.ok = FALSE]
                  ELSE [hs EXCEPT !.sym = MixKey(hs.sym, dh)]
 WPayload(hs, payload) ==
@@ -87,6 +89,15 @@ Write(prologue, sPriv, sPub, ePriv, ePub, rs, payload) ==
      ELSE [ok |-> TRUE, e |-> hs.msg[1], encS |-> hs.msg[2], encP |-> hs.msg[3],
            msg |-> Cat(hs.msg), hh |-> hs.sym.h]
 
+\* The attacker's writer: as Write, but the "ss" step is forged (forge = "skip_ss" | "zero_ss").
+WriteForged(prologue, sPriv, sPub, ePriv, ePub, rs, payload, forge) ==
+  LET hs0 == [WInit(prologue, sPriv, sPub, ePriv, ePub, rs) EXCEPT !.forge = forge]
+      hs1 == WRun(hs0, PatternX)
+      hs  == IF hs1.ok THEN WPayload(hs1, payload) ELSE hs1
+  IN IF ~hs.ok THEN [ok |-> FALSE]
+     ELSE [ok |-> TRUE, e |-> hs.msg[1], encS |-> hs.msg[2], encP |-> hs.msg[3],
+           msg |-> Cat(hs.msg), hh |-> hs.sym.h]
+
 \* ---- reader (responder): its own static pair, nothing else known ----
 RInit(prologue, sPriv, sPub) ==
   [sym |-> MixHash(MixHash(InitSym, prologue), sPub),     \* responder pre-mixes its own public key
@@ -101,6 +112,7 @@ RTokS(hs, m)  == LET r == DecryptAndHash(hs.sym, m.encS)
                     ELSE [hs EXCEPT !.rs = r.out, !.sym = r.st]
 RTokSS(hs)    == LET dh == Dh(hs.sPriv, hs.rs)
                  IN IF Deviation = "SkipSS" THEN hs
+                    ELSE IF Deviation = "ReaderIgnoresSsFailure" /\ IsZeroDH(dh) THEN hs   \* a failed ss is skipped, not fatal
                     ELSE IF IsZeroDH(dh) /\ Deviation # "IgnoreDhZero" THEN [hs EXCEPT !.ok = FALSE]
                     ELSE [hs EXCEPT !.sym = MixKey(hs.sym, dh)]
 
